@@ -16,6 +16,7 @@ EXTENDS Integers, Sequences, FiniteSets, TLC, Json
 
 CONSTANTS NK,         \* number of keys
           NV,         \* number of values
+          Shades,     \* values come in groups of Shades that COMPARE EQUAL yet are different values (1: all values differ under comp)
           BDepth,     \* model bound: while a copy is live, A and B differ in at most BDepth keys
           Obs(_, _, _, _)   \* observation hook (op, args, ret, post-state)
 
@@ -121,7 +122,14 @@ OpDone      == /\ CanMutA /\ StepA("done", <<>>, TRUE, EmptyMap)         \* C06:
 Anytime       == TRUE
 OpGet(k, c)      == /\ Anytime /\ ClsOK(c) /\ StepQ("get", <<k, c>>, Lookup(a, k))
 OpHasKey(k, c)   == /\ Plain /\ ClsOK(c) /\ StepQ("has_key", <<k, c>>, Has(a, k))
-OpHasValue(v, c) == /\ it = NIL /\ ClsOK(c) /\ StepQ("has_value", <<v, c>>, \E k \in Keys : a[k] = v)
+\* Equal under comp, different in state comp ignores (round 5): the values (g-1)*Shades+1 .. g*Shades form group g; the
+\* objects of one group compare EQUAL (regexps with one pattern and different flags, pairs with one key and different
+\* values) but are different values.  S: "a key maps to the value most recently set for it" - get, the listings and the
+\* iterator report the exact value (SetRes stores v itself, never "an equal one"); only has_value, which is DEFINED by
+\* object comparison, cannot tell the members of a group apart.
+CmpKey(v) == (v - 1) \div Shades
+OpHasValue(v, c) == /\ it = NIL /\ ClsOK(c)
+                    /\ StepQ("has_value", <<v, c>>, \E k \in Keys : a[k] # ABSENT /\ CmpKey(a[k]) = CmpKey(v))
 OpCount       == /\ Plain /\ StepQ("count", <<>>, Size(a))
 \* C: the listing calls append to a caller-supplied destination list and return that same list, or create a list when NULL
 \* is passed.  The destination is described by three arguments:
@@ -224,6 +232,10 @@ FillLaw == \A lo \in Keys, hi \in Keys, st \in 1 .. 2, v \in Vals : lo <= hi =>
     LET RECURSIVE It(_, _)
         It(m, k) == IF k > hi THEN m ELSE It(SetRes(m, k, v).m, k + st)
     IN  It(a, lo) = [k \in Keys |-> IF k \in FillKeys(lo, hi, st) THEN v ELSE a[k]]
+
+\* S: overwriting with a value that merely COMPARES equal to the stored one still replaces it
+ExactValueLaw == \A k \in Keys, v \in Vals, w \in Vals :
+    (CmpKey(v) = CmpKey(w) /\ v # w) => Lookup(SetRes(SetRes(a, k, v).m, k, w).m, k) = w
 
 IterLaw == it # NIL => it <= Size(a) + 1
 \* action properties (checked on every generated transition)
